@@ -65,7 +65,7 @@ fn main() {
             for kind in 0..11 { for len in [1usize, 2, 7] { writeln!(out, "D kind2={} seed={} len={}", kind, rng.below(100000), len).unwrap(); } }
             writeln!(out, "D kind2=0 seed=1 len=0").unwrap();
             for _ in 0..n {
-                writeln!(out, "D kind2={} seed={} len={}", rng.below(11), rng.below(100000), 1 + rng.below(if args[4] == "thorough" { 5000 } else { 300 })).unwrap();
+                writeln!(out, "D kind2={} seed={} len={}", rng.below(11), rng.below(100000), 1 + rng.below(if args[4] == "thorough" { 1000 } else { 300 })).unwrap();
             }
         }
         Some("exec") => {
